@@ -1,12 +1,14 @@
 import RoutinatorModel.Drv.Main
 import RoutinatorModel.Drv.Store
 import RoutinatorModel.Drv.Cleanup
+import RoutinatorModel.Drv.FsCrash
 open RoutinatorModel.Drv
 
 def dispatch (comp arg : String) : String :=
   match comp with
   | "store" => runStore arg
   | "cleanup" => runCleanup arg
+  | "fscrash" => runFsCrash arg
   | _ => "bad-component"
 
 def main : IO Unit := mainWith dispatch
